@@ -96,6 +96,7 @@ def check(prog: Program, run: Run) -> None:
     run_as(run, "C01.R7", "C02.R6", lambda r: c01._terminator(prog, r))
     # where the bytes of a value land: relative to the origin of the enclosing object
     c01._origin_window(prog, run, "C02.R3")
+    c01._probe_restores(prog, run, "C02.R3")
 
 
 # ----------------------------------------------------------------------- R1
